@@ -37,6 +37,9 @@ type TaskSpec struct {
 	// execution only) and restored afterwards: the environment is an input of
 	// an evaluation and may differ between evaluations of one process.
 	Env map[string]string `json:"env,omitempty"`
+	// Debug turns the parser's debug log on (SetDebug(true)) before the first
+	// op: logging is an observer and must not change any result.
+	Debug bool `json:"debug,omitempty"`
 }
 
 // Switch is one recorded hand-over of the cooperative scheduler.
